@@ -73,7 +73,7 @@ def run(pid, tier, replay=None):
                 d["stderr"] = (r.stderr or "")[-1200:]
                 ck.violation("crash:%s:%s" % (name.split("-")[0], d.get("op")), d)
                 continue
-            if r.returncode in (97, 98, 99, -6, -11) or "runtime error" in (r.stderr or "") or "Sanitizer" in (r.stderr or ""):
+            if r.returncode in (96, 97, 98, 99, -6, -11) or "runtime error" in (r.stderr or "") or "Sanitizer" in (r.stderr or ""):
                 ck.violation("crash:%s:?" % name.split("-")[0], {"what": "sanitizer abort during fault injection", "stderr": (r.stderr or "")[-1500:]})
                 continue
             raise Broken("harness failed on %s rc=%s: %s" % (name, r.returncode, (r.stderr or "")[-2000:]))
@@ -103,7 +103,7 @@ def run(pid, tier, replay=None):
     lr = vlib.run_harness([lexe, lpath], timeout=600)
     lm = re.search(r"^SUMMARY (\{.*\})$", lr.stdout or "", re.M)
     if lr.returncode != 0 or not lm:
-        if lr.returncode in (97, 98, 99, -6, -11) or "runtime error" in (lr.stderr or "") or "Sanitizer" in (lr.stderr or ""):
+        if lr.returncode in (96, 97, 98, 99, -6, -11) or "runtime error" in (lr.stderr or "") or "Sanitizer" in (lr.stderr or ""):
             ck.violation("crash:life", {"what": "sanitizer abort in a heap constructor / destructor / whole-object swap", "stderr": (lr.stderr or "")[-1500:]})
         else:
             raise Broken("lifecycle harness failed rc=%s: %s" % (lr.returncode, (lr.stderr or "")[-1500:]))
